@@ -61,14 +61,20 @@ def run(module, cfg, wd, name=None, workers=None, timeout=900, coverage=True, en
         e.update(env)
     t0 = time.time()
     outp = os.path.join(wd, name + ".out")
-    try:
-        with open(outp, "w") as fo:
-            p = subprocess.run(cmd, cwd=wd, stdout=fo, stderr=subprocess.STDOUT, timeout=timeout, env=e)
-        rc = p.returncode
-        timed_out = False
-    except subprocess.TimeoutExpired:
-        rc = -9
-        timed_out = True
+    for attempt in (1, 2):
+        try:
+            with open(outp, "w") as fo:
+                p = subprocess.run(cmd, cwd=wd, stdout=fo, stderr=subprocess.STDOUT, timeout=timeout, env=e)
+            rc = p.returncode
+            timed_out = False
+        except subprocess.TimeoutExpired:
+            rc = -9
+            timed_out = True
+        if rc < 0 and not timed_out and attempt == 1:
+            # the JVM was killed by a signal (in practice the kernel's OOM killer while a sibling job held the memory): once more, later
+            time.sleep(20)
+            continue
+        break
     wall = time.time() - t0
     res = {"ok": False, "distinct": 0, "generated": 0, "depth": 0, "actions": {}, "violated": None,
            "error": None, "json": [], "wall_s": round(wall, 2), "rc": rc, "timed_out": timed_out,
